@@ -70,10 +70,14 @@ def model_theorems(run, models):
 
 
 def check(run, prop, claims, fams, rule, assumptions, level=LEVEL_MC, keep=None, drive_kw=None, extra_cov=None, models=None,
-          extra_progs=None):
+          extra_progs=None, randoms=0, histories=0):
     if models:
         model_theorems(run, models)
     progs = gather(run, fams) + (extra_progs or [])
+    if randoms:
+        progs += random_mutants(run, frame_bytes(progs), randoms)
+    if histories:
+        progs += random_histories(run, histories, 60 if run.tier == "quick" else 200)
     if keep:
         progs = [p for p in progs if keep(p)]
     progs = assign_ids(progs, prop + "-")
@@ -84,6 +88,74 @@ def check(run, prop, claims, fams, rule, assumptions, level=LEVEL_MC, keep=None,
     if extra_cov:
         cov.update(extra_cov)
     return vlib.finish(run, prop, claims, notes, by_id(progs), cov, level, assumptions, sample_progs(progs))
+
+
+def frame_bytes(progs):
+    out = []
+    for p in progs:
+        for s in p["steps"]:
+            if s.get("op") == "Stream" and "bytes" in s and len(s["bytes"]) <= 400:
+                out.append(s["bytes"])
+    return out
+
+
+def random_mutants(run, corpus, n):
+    """Seeded random damage to TLC-generated valid frames (generation only; TLC judges the traces)."""
+    rng = run.rng
+    progs = []
+    if not corpus:
+        return progs
+    for i in range(n):
+        f = list(rng.choice(corpus))
+        k = rng.randrange(8)
+        if k == 0 and f:            # flip one byte
+            j = rng.randrange(len(f)); f[j] = rng.choice([0, 1, 0x7f, 0x80, 0xff, f[j] ^ (1 << rng.randrange(8))])
+        elif k == 1 and f:          # raise / lower one byte by one (length fields among them)
+            j = rng.randrange(len(f)); f[j] = (f[j] + rng.choice([-1, 1])) % 256
+        elif k == 2 and f:          # delete a byte, keep the remaining length
+            del f[rng.randrange(len(f))]
+        elif k == 3:                # insert a byte
+            f.insert(rng.randrange(len(f) + 1), rng.choice([0, 1, 0x26, 0x0b, 0x7f, 0x80, 0xff, rng.randrange(256)]))
+        elif k == 4 and len(f) > 2:  # truncate and re-frame (single byte remaining length only)
+            cut = rng.randrange(2, len(f))
+            if cut - 2 < 128:
+                f = [f[0], cut - 2] + f[2:cut]
+        elif k == 5:                # splice the head of one frame onto the tail of another
+            g = rng.choice(corpus); a = rng.randrange(len(f) + 1); b = rng.randrange(len(g) + 1); f = f[:a] + g[b:]
+        elif k == 6:                # pure random bytes behind a plausible header
+            body = [rng.randrange(256) for _ in range(rng.randrange(0, 24))]
+            f = [rng.randrange(256), len(body)] + body
+        else:                       # another type nibble on the same body
+            if f:
+                f[0] = (rng.randrange(16) << 4) | (f[0] & 15)
+        progs.append({"fam": "random", "meta": {"kind": "rand", "mut": k},
+                      "steps": [{"op": "Stream", "stream": 1, "bytes": f}, {"op": "ReadPacket", "h": 1, "stream": 1},
+                                {"op": "Diag", "h": 1}, {"op": "ReadPacket", "h": 2, "stream": 1}]})
+    return progs
+
+
+def random_histories(run, n, length):
+    """Seeded random setter histories built from the call alphabet TLC prints for MC_API with DEPTH = 1."""
+    rng = run.rng
+    alpha = {}
+    for pr in run.model_programs("MC_API", api_cfgs(run, 1), "api-alphabet"):
+        t = pr["meta"]["t"]
+        calls = [s for s in pr["steps"] if s.get("op") == "Call" and s.get("h") == 1]
+        setup = [s for s in pr["steps"] if not (s.get("op") == "Call" and s.get("h") == 1) and s.get("op") in ("Pub", "Call", "New")]
+        a = alpha.setdefault(t, {"calls": [], "setup": setup})
+        a["calls"] += calls[-1:]
+    progs = []
+    types = sorted(alpha)
+    for i in range(n):
+        t = types[i % len(types)]
+        a = alpha[t]
+        if not a["calls"]:
+            continue
+        hist = [rng.choice(a["calls"]) for _ in range(rng.randrange(length // 2, length + 1))]
+        progs.append({"fam": "api", "meta": {"t": t, "kind": "random-history", "len": len(hist)},
+                      "steps": a["setup"] + hist + [{"op": "WriteTo", "h": 1}, {"op": "Stream", "stream": 1, "from": 1},
+                                                   {"op": "ReadPacket", "h": 9, "stream": 1}, {"op": "Diag", "h": 1}]})
+    return progs
 
 
 BUILD_RULE = ("one program per abstract packet of spec/Gen.tla built through constructors and setters (family build: 15 types x "
@@ -119,14 +191,16 @@ def c04(run):
                  "mutants of every base packet (interior cuts, undefined identifiers, bad booleans, every prefix, five-byte "
                  "lengths), all valid frames, and bodies given directly to UnmarshalBinary of all 16 types; a Panic event or a "
                  "result that is not exactly (packet, nil) or (nil, error) is a violation",
-                 ["D9: packets left behind by a failed UnmarshalBinary are values a program can hold"])
+                 ["D9: packets left behind by a failed UnmarshalBinary are values a program can hold"],
+                 randoms=20000 if run.tier == "quick" else 400000)
 
 
 def c05(run):
     return check(run, "C05", {"C05"}, [("mutants", TYPE_PARTS), ("own", ONE_PART)],
                  "the C04 inputs; a decode that exceeds the step budget 4*len+64 (hook), the time/memory watchdog, or returns "
                  "a packet with more list elements than the frame has bytes is a violation",
-                 ["work bound MaxSteps(frame) = 4*Len(frame)+64 guarded reads", "watchdog 5 s / 1 GiB per program, confirmed by a re-run alone"])
+                 ["work bound MaxSteps(frame) = 4*Len(frame)+64 guarded reads", "watchdog 2 s / 1 GiB per program, confirmed by a re-run alone"],
+                 randoms=20000 if run.tier == "quick" else 400000)
 
 
 def c06(run):
@@ -161,7 +235,7 @@ def c09(run):
                  "lengths; the specification proves Verdict = reject for each (invariant Theorems2) and the trace specification "
                  "requires ReadPacket to return an error",
                  ["a frame is must-reject only when the first failure of the strict walk is one of the classes (a)-(d)"],
-                 keep=lambda p: p["meta"]["kind"] in ("cut", "undef", "bool", "rlfifth"))
+                 keep=lambda p: p["meta"]["kind"] in ("cut", "undef", "bool", "rlfifth", "vbi5"))
 
 
 def c10(run):
@@ -185,7 +259,9 @@ def c12(run):
                  "TLC explores PacketAPI (spec/MC_API.tla) per packet type: all histories of %d calls over the complete setter "
                  "alphabet with zero/non-zero/maximal arguments and both truth values; invariants FlagsInStep, LastWriteWins, "
                  "FrameCondition hold in the model; every history is executed and after every call all accessors must equal "
-                 "the model, then the frame is judged as in C02" % depth, ["D1 argument domain"])
+                 "the model, then the frame is judged as in C02; plus seeded random histories of 30-60 (thorough 100-200) calls "
+                 "over the same alphabet" % depth, ["D1 argument domain"],
+                 histories=300 if run.tier == "quick" else 5000)
 
 
 def c14(run):
@@ -217,7 +293,8 @@ def c18(run):
 def c19(run):
     return check(run, "C19", {"C19"}, [("render", ONE_PART), ("mutants", TYPE_PARTS), ("own", ONE_PART), ("wf", ONE_PART)],
                  "String and Dump after every decode of the mutant corpus, on packets left by failed UnmarshalBinary, on zero "
-                 "values of all 16 types, and for all 256 values of each rendered byte", ["D9"])
+                 "values of all 16 types, and for all 256 values of each rendered byte; seeded random damage to valid frames", ["D9"],
+                 randoms=10000 if run.tier == "quick" else 200000)
 
 
 def c13(run):
